@@ -18,6 +18,10 @@ F = Fraction
 CIRCS = {
     "hom2": {"nu": 2, "anc": (), "hord": (), "ops": (("bs", (1, 2), (1, "Rx")),)},
     "lossy3": {"nu": 3, "anc": (), "hord": (), "ops": (("bs", (1, 2), (1, "Rx")), ("ps", (2,), 2), ("bs", (2, 3), (1, "H")), ("loss", (1,), 1))},
+    # the same network with a photon-carrying herald whose input and output modes differ: the herald photon comes from the same imperfect
+    # source; the distribution is over all modes, so the specification is the un-heralded record with the FULL input
+    "her3": {"nu": 3, "anc": (), "hord": (), "ops": (("bs", (1, 2), (1, "Rx")), ("ps", (2,), 2), ("bs", (2, 3), (1, "H")), ("loss", (1,), 1)),
+             "herald": (1, 2, 1)},
     "lossy3b": {"nu": 3, "anc": (), "hord": (), "ops": (("bs", (3, 1), (1, "H")), ("bs", (1, 2), (1, "Rx")), ("loss", (2,), 1), ("perm", (1, 2, 3), (2, 3, 1)))},
 }
 
@@ -162,6 +166,13 @@ def compare_real(chk, name, rec, ins, nu, purity, indist, exact_in, exact_out, t
     import lightworks as lw
     from lightworks import emulator as emu
     c = build_real(rec)
+    user_ins = list(ins)
+    if rec.get("herald"):
+        hi, ho, hn = rec["herald"]
+        c.herald(hn, hi, ho)
+        if ins[hi] != hn:
+            raise MachineryError("grid input %s does not carry the herald photon" % (ins,))
+        user_ins = [v for i, v in enumerate(ins) if i != hi]
     src = emu.Source(brightness=float(nu), purity=float(purity), indistinguishability=float(indist))
     if threshold is not None:
         src.probability_threshold = float(threshold)
@@ -183,7 +194,7 @@ def compare_real(chk, name, rec, ins, nu, purity, indist, exact_in, exact_out, t
     if exact_out is None:
         return bad
     for b in ("permanent", "slos"):
-        d = emu.Sampler(c, lw.State(list(ins)), source=src, backend=b).probability_distribution
+        d = emu.Sampler(c, lw.State(user_ins), source=src, backend=b).probability_distribution
         got = {tuple(s.s): p for s, p in d.items()}
         if abs(sum(got.values()) - 1) > 1e-7:
             bad += chk.violation("output_norm", "%s: %s output distribution sums to %.9f" % (name, b, sum(got.values())), script, sig)
@@ -194,8 +205,8 @@ def compare_real(chk, name, rec, ins, nu, purity, indist, exact_in, exact_out, t
     return bad
 
 
-GRID_Q = [("hom2", (1, 1)), ("hom2", (2, 0)), ("lossy3", (1, 0, 1)), ("lossy3b", (1, 1, 0)), ("lossy3", (0, 1, 0)), ("hom2", (0, 0))]
-GRID_T = GRID_Q + [("lossy3", (2, 1, 0)), ("lossy3", (1, 1, 1)), ("lossy3b", (0, 2, 1)), ("hom2", (2, 1))]
+GRID_Q = [("hom2", (1, 1)), ("hom2", (2, 0)), ("lossy3", (1, 0, 1)), ("lossy3b", (1, 1, 0)), ("lossy3", (0, 1, 0)), ("hom2", (0, 0)), ("her3", (1, 1, 0))]
+GRID_T = GRID_Q + [("her3", (0, 1, 1)), ("her3", (2, 1, 0)), ("lossy3", (2, 1, 0)), ("lossy3", (1, 1, 1)), ("lossy3b", (0, 2, 1)), ("hom2", (2, 1))]
 
 
 def run(tier):
